@@ -11,7 +11,10 @@ import (
 
 	"github.com/aukilabs/hagall-common/messages/hagallpb"
 	"github.com/aukilabs/hagall-common/messages/odalpb"
+	"github.com/aukilabs/hagall-common/messages/vikjapb"
 	"github.com/aukilabs/hagall/models"
+	"github.com/aukilabs/hagall/modules/odal"
+	"github.com/aukilabs/hagall/modules/vikja"
 	vsync "github.com/aukilabs/hagall/vsync"
 	"google.golang.org/protobuf/proto"
 	"google.golang.org/protobuf/types/known/timestamppb"
@@ -131,6 +134,17 @@ func runBlock(c blockCase, policy func(y vsync.Yield, i int) int) (res blockResu
 			p = &hagallpb.EntityComponentTypeSubscribeRequest{Type: TSubReq, Timestamp: ts, RequestId: req, EntityComponentTypeId: uint32(1 + b.N%2)}
 		case "comp_add":
 			p = &hagallpb.EntityComponentAddRequest{Type: TCompAddReq, Timestamp: ts, RequestId: req, EntityComponentTypeId: uint32(1 + b.N%2), EntityId: uint32(1 + b.N%3), Data: []byte{byte(i)}}
+		case "comp_add_on":
+			if mc.Sess == nil {
+				continue // a module or core request outside a session may legitimately be dropped
+			}
+			// a component of the first registered type on entity N (which another request of the block may be removing)
+			p = &hagallpb.EntityComponentAddRequest{Type: TCompAddReq, Timestamp: ts, RequestId: req, EntityComponentTypeId: 1, EntityId: uint32(b.N), Data: []byte{byte(i)}}
+		case "action_on":
+			if mc.Sess == nil {
+				continue
+			}
+			p = &vikjapb.EntityActionRequest{Type: TActionReq, Timestamp: ts, RequestId: req, EntityAction: &vikjapb.EntityAction{EntityId: uint32(b.N), Name: "blk", Timestamp: &timestamppb.Timestamp{Seconds: 1700000100 + int64(i)}, Data: []byte{byte(i)}}}
 		case "asset":
 			if mc.Sess == nil {
 				continue
@@ -284,6 +298,49 @@ func runBlock(c blockCase, policy func(y vsync.Yield, i int) int) (res blockResu
 	}
 	if g := sessionGauge() - gauge0; g != float64(registered) {
 		fail("C07", "session gauge moved by %v since the case started, %d session(s) are registered", g, registered)
+	}
+	// nothing may stay attached to an entity that is gone (a component / entity action added while the
+	// entity was being removed by its owner's delete or departure)
+	for s := range sessions {
+		ents := map[uint32]bool{}
+		for _, e := range s.Entities() {
+			ents[e.ID] = true
+		}
+		for _, cp := range s.GetEntityComponents().ListAll() {
+			if !ents[cp.EntityId] {
+				fail("C12,C06,C09", "session %q holds a component (type %d) of entity %d, which no longer exists", store.GlobalSessionID(s.ID), cp.EntityComponentTypeId, cp.EntityId)
+			}
+		}
+		if st, ok := s.ModuleState("vikja"); ok {
+			for _, a := range st.(*vikja.State).EntityActions() {
+				if !ents[a.EntityId] {
+					fail("C16,C06,C09", "session %q holds an entity action (%q) of entity %d, which no longer exists", store.GlobalSessionID(s.ID), a.Name, a.EntityId)
+				}
+			}
+		}
+		if st, ok := s.ModuleState("odal"); ok {
+			for _, a := range st.(*odal.State).AssetInstances() {
+				if !ents[a.EntityId] {
+					fail("C16,C06,C09", "session %q holds an asset instance of entity %d, which no longer exists", store.GlobalSessionID(s.ID), a.EntityId)
+				}
+			}
+		}
+	}
+	compAdds := map[string]int{}
+	for _, pl := range plan {
+		if pl.op.Kind != "comp_add_on" {
+			continue
+		}
+		rh := w.RH(pl.slot)
+		for _, rx := range w.Inbox(pl.slot)[inboxBefore[pl.slot]:] {
+			if rx.T == TCompAddResp && rx.ReqID() == pl.req && rh != nil && rh.CurrentSession() != nil {
+				k := fmt.Sprintf("%p/1/%d", rh.CurrentSession(), pl.op.N)
+				compAdds[k]++
+				if compAdds[k] > 1 {
+					fail("C12,C09", "two concurrent requests both added the component (type 1, entity %d)", pl.op.N)
+				}
+			}
+		}
 	}
 	// ids handed out inside the block
 	type key struct {
@@ -548,10 +605,13 @@ func genBlockCase(rt *rapid.T) blockCase {
 		{"entity_add", "entity_add"}, {"type_add", "type_add"}, {"join_existing", "entity_add"}, {"join_existing", "entity_del"},
 		{"custom", "close"}, {"asset", "asset"}, {"join_new", "close"}, {"join_existing", "close", "join_new"}, {"close", "close", "join_existing"},
 		{"sub", "comp_add"}, {"type_add", "type_add", "type_add"}, {"close", "close", "join_new"}, {"close", "join_new", "join_new"}, {"close", "close", "close"},
+		{"comp_add_on", "entity_del"}, {"comp_add_on", "close"}, {"action_on", "entity_del"}, {"action_on", "close"}, {"comp_add_on", "comp_add_on"},
+		{"comp_add_on", "entity_del", "join_existing"}, {"action_on", "comp_add_on", "close"},
 	}
+	directed := false
 	if uni(rt, "templated", 4) != 0 {
 		tpl := pick(rt, "template", templates)
-		directed := uni(rt, "directed", 3) != 0
+		directed = uni(rt, "directed", 3) != 0
 		if directed {
 			// a minimal prefix that fits the template: the requests that need a session
 			// come from the (only) members of one session; joins come from outside
@@ -584,6 +644,23 @@ func genBlockCase(rt *rapid.T) blockCase {
 				n := uni(rt, "bn", 6)
 				if k == "type_add" {
 					n = 0 // the same name
+				}
+				if strings.HasSuffix(k, "_on") {
+					// the entity another request of the block removes (directed prefixes: the j-th
+					// member's entity has id j), or entity 1 when nobody does
+					n = 1
+					rank := 0
+					for j, k2 := range tpl {
+						if !strings.HasPrefix(k2, "join") {
+							rank++
+							if j != i && (k2 == "entity_del" || k2 == "close") {
+								n = rank
+							}
+						}
+					}
+					if !directed {
+						n = 1 + uni(rt, "on", 3)
+					}
 				}
 				c.Block = append(c.Block, BOp{Conn: conn(i), Kind: k, N: n})
 			}
@@ -804,3 +881,5 @@ func TestC02Sched(t *testing.T) { schedTest(t, "C02") }
 func TestC07Sched(t *testing.T) { schedTest(t, "C07") }
 func TestC09Sched(t *testing.T) { schedTest(t, "C09") }
 func TestC10Sched(t *testing.T) { schedTest(t, "C10") }
+func TestC12Sched(t *testing.T) { schedTest(t, "C12") }
+func TestC06Sched(t *testing.T) { schedTest(t, "C06") }
